@@ -134,6 +134,7 @@ def rejected(env, lp, npol, fault, prefix='F', cont='AP', d=1, A=2, twin=False, 
         return                  # the call was accepted: the property says nothing about it
     kf = KF_PREDICT if fault in ('predict.feature_count', 'expectations.feature_count') else None
     env.ob('arms_unchanged', list(B.arms) == list(T.arms) == cur)
+    env.ob('cold_arms_unchanged', list(B.cold_arms) == list(T.cold_arms))
     if 'F' in prefix:
         compare_on_copies(env, 'after_reject', B, T, ctxd, kf=kf, alt_sync=bool(kf))
     for k, op in enumerate(cont):
@@ -147,8 +148,13 @@ def rejected(env, lp, npol, fault, prefix='F', cont='AP', d=1, A=2, twin=False, 
             a = spare.pop(0)
             both(lambda m, a=a: m.add_arm(a))
             cur.append(a)
+        elif op == 'W':
+            if npol or len(cur) < 2:
+                continue
+            both(lambda m: m.warm_start({a: FEATURES[a] for a in cur}, 1.0))
         env.ob('%s.arms' % tag, list(B.arms) == list(T.arms) == cur)
-        if op in 'PF':
+        env.ob('%s.cold_arms' % tag, list(B.cold_arms) == list(T.cold_arms))
+        if op in 'PFW':
             compare_on_copies(env, tag, B, T, ctxd, kf=kf, alt_sync=bool(kf))
     if twin:
         env.ob('twin.false', False)
@@ -212,6 +218,10 @@ def scenarios(tier):
             out.append(Scenario('%s.none.%s.afterF.d2' % (lp, f), rejected,
                                 dict(lp=lp, npol=None, fault=f, prefix='F', cont='AP', d=2), weight=60, shards=2,
                                 max_paths=60000, bounds=dict(lp=lp, fault=f, features=2)))
+            # the rejected batch may name an arm that is still cold; the continuation warm-starts the cold arms
+            out.append(Scenario('%s.none.%s.afterF.d2.warm_start' % (lp, f), rejected,
+                                dict(lp=lp, npol=None, fault=f, prefix='F', cont='WP', d=2), weight=80, shards=4,
+                                max_paths=60000, bounds=dict(lp=lp, fault=f, features=2, continuation='warm_start, partial_fit')))
     out.append(Scenario('twin.ucb1', rejected, dict(lp='ucb1', npol='radius:cityblock', fault='pfit.feature_count', twin=True),
                         twin=True))
     return out
